@@ -14,13 +14,13 @@ export CARGO_NET_OFFLINE=true
 git checkout -q -- . 2>/dev/null
 cp $SD/demo.rs tests/seed_demo.rs
 echo "## demo without patch" >> "$log"
-cargo test --offline $demoflags --test seed_demo >> "$log" 2>&1; rc_clean=$?
+cargo test --offline ${JOBS:-} $demoflags --test seed_demo >> "$log" 2>&1; rc_clean=$?
 git apply $SD/patch.diff || { echo "patch does not apply" | tee -a "$log"; exit 2; }
 echo "## demo with patch" >> "$log"
-cargo test --offline $demoflags --test seed_demo >> "$log" 2>&1; rc_mut=$?
+cargo test --offline ${JOBS:-} $demoflags --test seed_demo >> "$log" 2>&1; rc_mut=$?
 rm -f tests/seed_demo.rs
 echo "## suite with patch" >> "$log"
-cargo test --workspace --no-fail-fast --offline > "$dst/suite_with_patch.log" 2>&1
+cargo test ${JOBS:-} --workspace --no-fail-fast --offline ${SUITEFLAGS:-} > "$dst/suite_with_patch.log" 2>&1
 failed=$(grep -E "^test .* \.\.\. FAILED" "$dst/suite_with_patch.log" | sed 's/^test //; s/ \.\.\. FAILED//' | sort | tr '\n' ' ')
 passed=$(grep -cE "^test .* \.\.\. ok" "$dst/suite_with_patch.log")
 git checkout -q -- .
